@@ -328,6 +328,8 @@ CheckDec17(e) ==
        borshbits |-> OkOnly2("borshbits", LAMBDA v, c : Len(x) >= nb /\ c = nb /\ v = LEVal(SubSeq(x, 1, nb)) /\ Lt2(v, n)),
        der |-> Eq(e, "der", DerCanonical(x, n)),
        der_anyref |-> OkOnly1("der_anyref", LAMBDA v : Lt2(v, n) /\ DerEnc(v) = x),
+       der_any_r |-> OkOnly1("der_any_r", LAMBDA v : Lt2(v, n) /\ DerEnc(v) = x),
+       der_any_o |-> OkOnly1("der_any_o", LAMBDA v : Lt2(v, n) /\ DerEnc(v) = x),
        der_intref |-> OkOnly1("der_intref", LAMBDA v : Lt2(v, n) /\ DerContent(v) = x),
        der_uintref |-> OkOnly1("der_uintref", LAMBDA v : Lt2(v, n) /\ v = BEVal(x)),
        json |-> OkOnly1("json", LAMBDA v : JsonDenotes(x, v, n)),
